@@ -68,6 +68,23 @@ def allocT (n size : Nat) : Option Unit := if n * size ≤ 9223372036854775807 t
 def mapIdxT {α β} (f : Nat → α → Option β) (l : List α) : Option (List β) :=
   mapT (fun p => f p.2 p.1) l.zipIdx
 
+theorem mulU_of_lt {a b : Nat} (h : a * b < 18446744073709551616) : mulU a b = some (a * b) := if_pos h
+theorem addU_of_lt {a b : Nat} (h : a + b < 18446744073709551616) : addU a b = some (a + b) := if_pos h
+theorem remU_of_ne {a b : Nat} (h : b ≠ 0) : remU a b = some (a % b) := if_neg h
+theorem divCeilU_of_ne {a b : Nat} (h : b ≠ 0) : divCeilU a b = some (divCeil a b) := if_neg h
+theorem sliceTo_of_le {len e : Nat} (h : e ≤ len) : sliceTo len e = some e := if_pos h
+theorem sliceFrom_of_le {len a : Nat} (h : a ≤ len) : sliceFrom len a = some (len - a) := if_pos h
+theorem sliceRange_of {len a b : Nat} (h : a ≤ b ∧ b ≤ len) : sliceRange len a b = some (b - a) := if_pos h
+theorem idxLen_of_lt {len i : Nat} (h : i < len) : idxLen len i = some () := if_pos h
+theorem chunksT_of_ne {len n : Nat} (h : n ≠ 0) : chunksT len n = some (chunkLens n len len) := if_neg h
+theorem copyFromSliceT_of_eq {dst src : Nat} (h : dst = src) : copyFromSliceT dst src = some () := if_pos h
+theorem splitAtT_of_le {len mid : Nat} (h : mid ≤ len) : splitAtT len mid = some (mid, len - mid) := if_pos h
+theorem allocT_of_le {n size : Nat} (h : n * size ≤ 9223372036854775807) : allocT n size = some () := if_pos h
+
+/- opaque to the elaborator from here on (see `Trap.lean`); proofs use the `…_of_…` lemmas -/
+attribute [irreducible] mulU addU remU divCeilU sliceTo sliceFrom sliceRange idxLen chunksT copyFromSliceT splitAtT
+  allocT
+
 /-! ## colour formats -/
 
 /-- `ColorFormat`: channels and `Precision::size()` (1, 2, 4) -/
@@ -191,6 +208,14 @@ def fillRowsT (bufferPixels buffer bpp epp : Nat) (copyT : Nat → Nat → Optio
     let s ← fillRowsT bufferPixels buffer bpp epp copyT rest r.2
     pure (r.1 ++ s.1, s.2)
 
+/-- write_util.rs:109–112 `if fill_pixels > 0 { process_chunk(&mut buffer[..fill_pixels * buffer_elements_per_pixel])?; }` -/
+def finishT (buffer epp : Nat) (r : List Nat × Nat) : Option (List Nat) :=
+  if r.2 > 0 then do
+    let m ← mulU r.2 epp
+    let last ← sliceTo buffer m
+    pure (r.1 ++ [last])
+  else pure r.1
+
 /-- `for_each_chunk(image, buffer, buffer_elements_per_pixel, copy_to_buffer, process_chunk)`.
 `bufLen` = `buffer.len()`, `epp` = `buffer_elements_per_pixel`; `copyT src dst` = what `copy_to_buffer` itself
 checks on a source of `src` bytes and a destination of `dst` elements.  Returns the lengths (elements) of the
@@ -213,11 +238,7 @@ def forEachChunkT (v : View) (bufLen epp : Nat) (copyT : Nat → Nat → Option 
   else do
     let rows ← rowsT v                                       -- :89
     let r ← fillRowsT bufferPixels buffer bpp epp copyT rows 0
-    if r.2 > 0 then do                                       -- :109
-      let m ← mulU r.2 epp                                   -- :111
-      let last ← sliceTo buffer m
-      pure (r.1 ++ [last])
-    else pure r.1
+    finishT buffer epp r
 
 /-! ## `copy_directly` (encode/encoder.rs:257–291) -/
 
